@@ -31,6 +31,13 @@ def groups(n, seed):
         pk = dict(penalty_update=gen.PENS[1], rho=float(10.0 ** rng.uniform(-7, 0)), iteration_limit=60, display_interval=1e9,
                   step_control_type=gen.CTLS[i % 4])
         gs.append({"tag": "C16.equalmult", "runs": [{"prob": ("equalmult", int(rng.integers(0, 2 ** 31)), int(rng.integers(3, 8))), "params": pk}]})
+    # dual-norm policy started from penalties far below 1e-8 (absolute tolerances of float comparisons live there): the
+    # penalty *used* by the trials must follow the policy step by step
+    for i in range(max(6, n // 16)):
+        pk = dict(penalty_update=gen.PENS[1], rho=float(10.0 ** -[10, 12, 9, 15][i % 4]), iteration_limit=40, display_interval=1e9,
+                  step_control_type=gen.CTLS[(i // 2) % 4])
+        ps = ("repo", ["hs71c", "tame", "hs71"][i % 3]) if i % 2 == 0 else family_spec(5 * i + 2, rng)
+        gs.append({"tag": "C16.tinyrho", "runs": [{"prob": ps, "params": pk, "y0scale": [None, 1.0, 100.0][i % 3]}]})
     return gs
 
 
